@@ -29,6 +29,86 @@ REPRINT = Variant("whole package re-printed by ast.unparse (comments, layout and
 RENAME = Variant("every function-local variable of the package renamed (alpha-renaming; parameters, attributes, functions keep their names)", "benign", [])
 
 
+def _syntax_transformers():
+    """behaviour-preserving whole-package rewrites used as generic benign variants: name -> ast.NodeTransformer class"""
+    import ast
+
+    class Annotate(ast.NodeTransformer):  # x = 3  ->  x: int = 3  inside functions
+        def __init__(self):
+            self.depth = 0
+
+        def visit_FunctionDef(self, n):
+            self.depth += 1
+            self.generic_visit(n)
+            self.depth -= 1
+            return n
+
+        def visit_Assign(self, n):
+            v = n.value
+            if self.depth and len(n.targets) == 1 and isinstance(n.targets[0], ast.Name) and isinstance(v, ast.Constant) and isinstance(v.value, (int, float)) and not isinstance(v.value, bool):
+                return ast.copy_location(ast.AnnAssign(target=n.targets[0], annotation=ast.Name(id="float" if isinstance(v.value, float) else "int", ctx=ast.Load()), value=v, simple=1), n)
+            return n
+
+    class AugPlain(ast.NodeTransformer):  # x += v  ->  x = x + v  (plain names)
+        def visit_AugAssign(self, n):
+            if isinstance(n.target, ast.Name) and isinstance(n.op, (ast.Add, ast.Sub, ast.Mult, ast.Div)):
+                return ast.copy_location(ast.Assign(targets=[ast.Name(id=n.target.id, ctx=ast.Store())], value=ast.BinOp(left=ast.Name(id=n.target.id, ctx=ast.Load()), op=n.op, right=n.value)), n)
+            return n
+
+    class Trace(ast.NodeTransformer):  # print('trace') at the start of every function and loop body
+        @staticmethod
+        def _ins(body):
+            return [ast.Expr(value=ast.Call(func=ast.Name(id="print", ctx=ast.Load()), args=[ast.Constant(value="trace")], keywords=[]))] + body
+
+        def visit_FunctionDef(self, n):
+            self.generic_visit(n)
+            b = n.body
+            if b and isinstance(b[0], ast.Expr) and isinstance(b[0].value, ast.Constant) and isinstance(b[0].value.value, str):
+                n.body = [b[0]] + self._ins(b[1:])
+            else:
+                n.body = self._ins(b)
+            return n
+
+        def visit_For(self, n):
+            self.generic_visit(n)
+            n.body = self._ins(n.body)
+            return n
+
+        visit_While = visit_For
+
+    class SwapMult(ast.NodeTransformer):  # a * b -> b * a  (not for list repetition / constant-first products)
+        def visit_BinOp(self, n):
+            self.generic_visit(n)
+            if isinstance(n.op, ast.Mult) and not isinstance(n.left, (ast.List, ast.Constant)) and not isinstance(n.right, ast.List):
+                n.left, n.right = n.right, n.left
+            return n
+
+    class FlipCmp(ast.NodeTransformer):  # a < b -> b > a
+        M = {ast.Lt: ast.Gt, ast.Gt: ast.Lt, ast.LtE: ast.GtE, ast.GtE: ast.LtE}
+
+        def visit_Compare(self, n):
+            self.generic_visit(n)
+            if len(n.ops) == 1 and type(n.ops[0]) in self.M:
+                n.left, n.comparators[0] = n.comparators[0], n.left
+                n.ops = [self.M[type(n.ops[0])]()]
+            return n
+
+    class NegIf(ast.NodeTransformer):  # if c: A else: B -> if not c: B else: A
+        def visit_If(self, n):
+            self.generic_visit(n)
+            if n.orelse and not (len(n.orelse) == 1 and isinstance(n.orelse[0], ast.If)):
+                n.test = ast.UnaryOp(op=ast.Not(), operand=n.test)
+                n.body, n.orelse = n.orelse, n.body
+            return n
+
+    return {"annotated constant locals (x: int = 3)": Annotate, "augmented assignments written out (x = x + v)": AugPlain,
+            "print('trace') added to every function and loop body": Trace, "operands of every product swapped": SwapMult,
+            "every ordering comparison written the other way round": FlipCmp, "every if/else negated with its branches swapped": NegIf}
+
+
+SYNTAX_VARIANTS = [Variant("package-wide: " + k, "benign", []) for k in _syntax_transformers()]
+
+
 class _Renamer:
     """consistent renaming of the names a function binds locally (not parameters, not global / nonlocal names, not the
     parameters of nested functions); nested scopes are renamed along, so closures keep referring to the same variable"""
@@ -95,6 +175,16 @@ def apply(sources: Dict[str, str], v: Variant) -> Optional[Dict[str, str]]:
             if not mod.startswith(("schema:", "file:")):
                 out[mod] = _Renamer.module(src)
         return out
+    if v.name.startswith("package-wide: "):
+        import ast
+
+        T = _syntax_transformers()[v.name[len("package-wide: "):]]
+        for mod, src in sources.items():
+            if not mod.startswith(("schema:", "file:")):
+                t = T().visit(ast.parse(src))
+                ast.fix_missing_locations(t)
+                out[mod] = ast.unparse(t) + "\n"
+        return out
     for mod, old, new in v.edits:
         src = out.get(mod)
         if src is None or src.count(old) != 1:
@@ -142,7 +232,7 @@ def _one(job):
 
 
 def run(prop: str, sources: Dict[str, str], base_keys, variants: List[Variant], jobs: int = 16) -> dict:
-    jobs_list = [(prop, sources, sorted(base_keys), v) for v in list(variants) + [REPRINT, RENAME]]
+    jobs_list = [(prop, sources, sorted(base_keys), v) for v in list(variants) + [REPRINT, RENAME] + SYNTAX_VARIANTS]
     if not jobs_list:
         return {"lines": ["self-validation: no variants"], "summary": {}, "failed": 0}
     n = max(1, min(jobs, len(jobs_list)))
